@@ -3,8 +3,39 @@ package main
 // misc.go — ops that are not "encode a barcode": helper functions, stage-level and finite-domain ops.
 
 import (
+	"fmt"
+	"strconv"
+	"strings"
+
 	"github.com/boombuler/barcode/twooffive"
+	"github.com/boombuler/barcode/utils"
 )
+
+func ints(s string) []int {
+	if s == "-" || s == "" {
+		return []int{}
+	}
+	p := strings.Split(s, ",")
+	out := make([]int, len(p))
+	for i, x := range p {
+		out[i] = atoi(x)
+	}
+	return out
+}
+
+func joinInts(v []int) string {
+	if len(v) == 0 {
+		return "-"
+	}
+	var b strings.Builder
+	for i, x := range v {
+		if i > 0 {
+			b.WriteByte(',')
+		}
+		b.WriteString(strconv.Itoa(x))
+	}
+	return b.String()
+}
 
 func miscOp(f []string) (string, bool) {
 	switch f[0] {
@@ -14,6 +45,112 @@ func miscOp(f []string) (string, bool) {
 			return "rej", true
 		}
 		return "ok str=" + hexField([]byte(s)), true
+	case "bl":
+		return bitListOp(f[1:]), true
+	case "gf.tables":
+		gf := utils.NewGaloisField(atoi(f[1]), atoi(f[2]), atoi(f[3]))
+		return fmt.Sprintf("ok size=%d base=%d alog=%s log=%s", gf.Size, gf.Base, joinInts(gf.ALogTbl), joinInts(gf.LogTbl)), true
+	case "gf.mulrow", "gf.divrow":
+		gf := utils.NewGaloisField(atoi(f[1]), atoi(f[2]), atoi(f[3]))
+		a := atoi(f[4])
+		out := make([]int, gf.Size)
+		for b := 0; b < gf.Size; b++ {
+			if f[0] == "gf.mulrow" {
+				out[b] = gf.Multiply(a, b)
+			} else if b == 0 {
+				out[b] = -1 // Divide(a, 0) panics by contract
+			} else {
+				out[b] = gf.Divide(a, b)
+			}
+		}
+		return "ok v=" + joinInts(out), true
+	case "gf.inv":
+		gf := utils.NewGaloisField(atoi(f[1]), atoi(f[2]), atoi(f[3]))
+		out := make([]int, gf.Size)
+		for a := 1; a < gf.Size; a++ {
+			out[a] = gf.Invers(a)
+		}
+		return "ok v=" + joinInts(out), true
+	case "gf.div0":
+		gf := utils.NewGaloisField(atoi(f[1]), atoi(f[2]), atoi(f[3]))
+		gf.Divide(atoi(f[4]), 0)
+		return "ok", true
+	case "poly":
+		// poly <pp> <size> <base> <op> <p> <q>
+		gf := utils.NewGaloisField(atoi(f[1]), atoi(f[2]), atoi(f[3]))
+		p := utils.NewGFPoly(gf, ints(f[5]))
+		q := utils.NewGFPoly(gf, ints(f[6]))
+		switch f[4] {
+		case "add":
+			return "ok r=" + joinInts(p.AddOrSubstract(q).Coefficients), true
+		case "mul":
+			return "ok r=" + joinInts(p.Multiply(q).Coefficients), true
+		case "div":
+			quo, rem := p.Divide(q)
+			return "ok q=" + joinInts(quo.Coefficients) + " r=" + joinInts(rem.Coefficients), true
+		}
+	case "rs":
+		// rs <pp> <size> <base> <k1>:<data1>;<k2>:<data2>;…   one shared encoder, calls in order
+		gf := utils.NewGaloisField(atoi(f[1]), atoi(f[2]), atoi(f[3]))
+		enc := utils.NewReedSolomonEncoder(gf)
+		var outs []string
+		for _, call := range strings.Split(f[4], ";") {
+			kv := strings.SplitN(call, ":", 2)
+			outs = append(outs, joinInts(enc.Encode(ints(kv[1]), atoi(kv[0]))))
+		}
+		return "ok r=" + strings.Join(outs, ";"), true
 	}
 	return "", false
+}
+
+// bitListOp interprets a script of BitList operations:
+//   z | n<cap>   zero value / NewBitList(cap)           (first token)
+//   a<0|1>       AddBit          A<bits>  AddBit(bits...) variadic
+//   B<byte>      AddByte         b<x>,<k> AddBits(x, k)
+//   s<i>,<0|1>   SetBit          g<i>     GetBit (result appended to gets=)
+func bitListOp(script []string) string {
+	var bl *utils.BitList
+	var gets strings.Builder
+	for idx, t := range script {
+		switch {
+		case idx == 0 && t == "z":
+			bl = new(utils.BitList)
+		case idx == 0 && t[0] == 'n':
+			bl = utils.NewBitList(atoi(t[1:]))
+		case t[0] == 'a':
+			bl.AddBit(t[1:] == "1")
+		case t[0] == 'A':
+			bits := make([]bool, len(t)-1)
+			for i, c := range t[1:] {
+				bits[i] = c == '1'
+			}
+			bl.AddBit(bits...)
+		case t[0] == 'B':
+			bl.AddByte(byte(atoi(t[1:])))
+		case t[0] == 'b':
+			p := strings.Split(t[1:], ",")
+			bl.AddBits(atoi(p[0]), byte(atoi(p[1])))
+		case t[0] == 's':
+			p := strings.Split(t[1:], ",")
+			bl.SetBit(atoi(p[0]), p[1] == "1")
+		case t[0] == 'g':
+			if bl.GetBit(atoi(t[1:])) {
+				gets.WriteByte('1')
+			} else {
+				gets.WriteByte('0')
+			}
+		default:
+			panic("bad bitlist script token " + t)
+		}
+	}
+	by := bl.GetBytes()
+	var it []byte
+	for b := range bl.IterateBytes() {
+		it = append(it, b)
+	}
+	g := gets.String()
+	if g == "" {
+		g = "-"
+	}
+	return fmt.Sprintf("ok len=%d bytes=%s iter=%s gets=%s", bl.Len(), hexField(by), hexField(it), g)
 }
